@@ -31,6 +31,7 @@ func (s *Sim) ByzProposeWith(i int, hq *lib.QuorumCertificate) []*Envelope {
 		}
 		b.HighQC = c
 		b.Block, b.Results, b.BlockHash = c.Block, c.Results, nil
+		b.RCBuildHeight = n.Root // the re-proposal claims the current root height as its build height
 	} else {
 		b.HighQC = nil
 		b.Block, b.Results, b.BlockHash = nil, nil, nil
